@@ -1,30 +1,39 @@
-"""C17, sampled part (NOT proved): round trips through the REAL code of
+"""C17, sampled part: round trips through the REAL code of
 
   exec      executor messages (cascade.executor.msg, every member of `Message`):
             serde.ser_message/des_message, and the real senders comms.callback /
-            ReliableSender.send / send_data feeding the real Listener._recv_one (payload frames)
-  report    controller reports: controller.report.serialize / deserialize
+            ReliableSender.send / send_data feeding the real Listener._recv_one (payload frames) -- over capturing
+            sockets and (pipes zmq_send_data / zmq_reliable) over REAL zmq inproc sockets, with payloads handed over as
+            bytes / memoryview (what the data server passes) / bytearray / str
+  report    controller reports: controller.report.serialize / deserialize, and (pipe reporter) the real Reporter: report
+            address built by gateway.router._spawn_local, split by Reporter, send_progress / send_result / shutdown -> _send
   gateway   request/response pairs: gateway.client.request_response (serialising half, parsing half)
             against parse_request / serialize_response, over a fake zmq REQ socket
   job       JobInstance -> orjson.dumps(job.dict()) -> file -> orjson.loads -> JobInstance(**d), through the
             real gateway.router._spawn_local (writer) and benchmarks.__main__.get_job (reader), with
             `open` / `subprocess` of those modules replaced by in-memory fakes
 
+exec / report (pickle) are NOT proved; gateway / job are modelled by Model/Json.lean and this module also describes the real
+messages to that model (`job_model_input`, `gw_model_input`, `py_to_model`, `doc_to_model`).
+
 Values are generated from the type annotations of the real classes (typing.get_type_hints /
 pydantic model_fields): a deterministic sweep (`sweep_cases`: every class x every leaf x every
 boundary value, structured identifier and container shape, one change at a time -- identical for
 every seed) and random values (`gen`), boundary-biased, in which identifiers with the separators
 the code itself uses (`.`, `,`, `:`, `/`, `|`, blanks), empty components, ids whose reprs coincide
-and mappings declared in non-sorted key order are frequent. A *spec* is a JSON-able description of
+and mappings declared in non-sorted key order are frequent. A leaf of type `Any` takes what the annotation admits: JSON
+values AND bytes, tuples, sets, frozensets, mappings with non-str keys, non-finite floats, complex, datetime, date, UUID,
+Decimal, Path (`gen_non_json`, `SWEEP_ANY_NON_JSON`). A *spec* is a JSON-able description of
 a value; `build` turns it into the real object, so a replay file is self-contained.
 
-Comparison (`diff`): field by field over dataclasses / pydantic models (never through repr, str or
-a class's own __eq__ alone), strict about scalar types, and ORDER-SENSITIVE for the mappings whose
-order carries meaning (ORDERED_FIELDS: output_schema binds generator results in declaration order).
+Comparison (`diffs`): field by field over dataclasses / pydantic models (never through repr, str or
+a class's own __eq__ alone), strict about scalar types, ORDER-SENSITIVE for the mappings whose
+order carries meaning (ORDERED_FIELDS), ALL differences of a case (a differing subtree once), each with the class of the
+original and of what came back (`alter`) and the field it sits in.
 
 Oracle (property text): decode(encode(m)) == m; an encoder may refuse a value only if the value is
-outside the domain of the encoding (JSON: 64-bit integers, well-formed unicode, finite floats;
-pickle: everything) -- refusing is fine, changing the value silently is not.
+outside what the encoding can carry (JSON: null, booleans, 64-bit integers, finite floats, well-formed unicode, lists,
+str-keyed mappings; pickle: everything) -- refusing is fine, changing the value silently is not.
 """
 from __future__ import annotations
 
@@ -84,6 +93,7 @@ class Profile:
         self.kind = kind  # "pickle" | "json"
         self.bad = bad    # json only: may contain integers beyond 64 bit (the encoder must refuse them)
         self.pool = []    # short strings already used in this case (re-used / recombined by gen_str)
+        self.exotic = 0.0 # probability that a node of an `Any` value is something JSON cannot carry (bytes, tuple, set, ...)
 
 
 # Separators the code base itself uses when it builds or splits identifiers:
@@ -200,7 +210,42 @@ def gen_bytes(rng):
     return pickle.dumps(("payload", rng.randrange(1000)))   # bytes that are themselves a pickle
 
 
+def gen_non_json(rng, prof, depth=0):
+    """a value a field of type `Any` admits (the builders bind such values routinely) that JSON has no form for"""
+    r = rng.random()
+    if r < 0.16:
+        return {"$b": rng.choice(["", "6162", "00", "fffe", "c3a9", "80"]) if rng.random() < 0.7 else gen_bytes(rng)[:64].hex()}
+    if r < 0.36:
+        return {"$t": [gen_json_any(rng, prof, depth + 1) for _ in range(rng.choice([0, 1, 2, 2, 3]))]}
+    if r < 0.46:
+        return {"$set": sorted({rng.choice([0, 1, 2, 3, 4, 7]) for _ in range(rng.randint(0, 3))})} if rng.random() < 0.6 else {"$set": sorted({rng.choice(["a", "b", "x.y"]) for _ in range(2)})}
+    if r < 0.52:
+        return {"$fs": sorted({rng.choice([1, 2, 3]) for _ in range(rng.randint(0, 2))})}
+    if r < 0.72:
+        # mapping with a key that is no string: int, bool, None, float, tuple -- alone or next to string keys
+        k = rng.choice([1, 0, -1, 10, True, None, 1.5, {"$t": [1, 2]}, {"$t": ["a", "b"]}, {"$b": "6b"}])
+        pairs = [[k, gen_json_any(rng, prof, depth + 1)]]
+        if rng.random() < 0.4:
+            pairs.insert(rng.randint(0, 1), [rng.choice(["1", "a", "True", "None"]), gen_json_any(rng, prof, depth + 1)])
+        return {"$d": pairs}
+    if r < 0.80:
+        return {"$f": rng.choice(["inf", "-inf", "nan"])}
+    if r < 0.84:
+        return {"$cx": rng.choice([["1.0", "2.0"], ["0.0", "0.0"], ["0.0", "-1.5"]])}
+    if r < 0.89:
+        return {"$dt": rng.choice(["2020-01-02T03:04:05", "1999-12-31T23:59:59.999999", "2024-02-29T00:00:00+00:00", "2024-06-01T12:00:00+05:30"])}
+    if r < 0.92:
+        return {"$date": rng.choice(["2020-01-02", "0001-01-01", "9999-12-31"])}
+    if r < 0.95:
+        return {"$uuid": "%032x" % rng.getrandbits(128)}
+    if r < 0.975:
+        return {"$dec": rng.choice(["1.10", "0", "1E+3", "NaN"])}
+    return {"$path": rng.choice(["/tmp/x", "a/b.grib", "."])}
+
+
 def gen_json_any(rng, prof, depth=0):
+    if prof.exotic and depth <= 3 and rng.random() < prof.exotic:
+        return gen_non_json(rng, prof, depth)
     r = rng.random()
     if depth >= 2:
         r *= 0.7
@@ -209,7 +254,8 @@ def gen_json_any(rng, prof, depth=0):
     if r < 0.35:
         return gen_str(rng, prof)
     if r < 0.45:
-        return rng.choice([0.0, -0.0, 0.5, 1e-320, 1.7976931348623157e308, -2.5e-7, 3.141592653589793, 1e22, 0.1 + 0.2])
+        return rng.choice([0.0, -0.0, 0.5, 1e-320, 1.7976931348623157e308, -2.5e-7, 3.141592653589793, 1e22, 0.1 + 0.2,
+                           1e15, 1e16, 123456789012345680.0, 1e-5, 0.0001, 1.5e-7, -1e21, 5e-324, 2.0**53, 1 / 3])
     if r < 0.55:
         return rng.choice([None, True, False])
     if r < 0.7:
@@ -298,13 +344,13 @@ def gen(tp, rng, prof, depth=0, name=None):
     args = typing.get_args(tp)
     if org is list:
         return _with_twins([gen(args[0], rng, prof, depth + 1, name) for _ in range(rng.choice([0, 1, 1, 2, 3, 5]))], rng)
-    if org is set:
+    if org in (set, frozenset):
         elems = []
         for _ in range(rng.choice([0, 1, 2, 3])):
             e = gen(args[0], rng, prof, depth + 1, name)
             if e not in elems:
                 elems.append(e)
-        return {"$set": _with_twins(elems, rng)}
+        return {"$set" if org is set else "$fs": _with_twins(elems, rng)}
     if org is tuple:
         return {"$t": [gen(a, rng, prof, depth + 1, name) for a in args]}
     if org is dict:
@@ -342,6 +388,31 @@ def build(spec):
             return {build(k): build(v) for k, v in spec["$d"]}
         if "$f" in spec:
             return float(spec["$f"])
+        if "$fs" in spec:
+            return frozenset(build(x) for x in spec["$fs"])
+        if "$cx" in spec:
+            return complex(float(spec["$cx"][0]), float(spec["$cx"][1]))
+        if "$dt" in spec:
+            import datetime
+            return datetime.datetime.fromisoformat(spec["$dt"])
+        if "$date" in spec:
+            import datetime
+            return datetime.date.fromisoformat(spec["$date"])
+        if "$uuid" in spec:
+            import uuid
+            return uuid.UUID(spec["$uuid"])
+        if "$dec" in spec:
+            import decimal
+            return decimal.Decimal(spec["$dec"])
+        if "$path" in spec:
+            import pathlib
+            return pathlib.PurePosixPath(spec["$path"])
+        if "$brep" in spec:
+            return bytes.fromhex(spec["$brep"][0]) * spec["$brep"][1]
+        if "$ba" in spec:
+            return bytearray.fromhex(spec["$ba"])
+        if "$mv" in spec:
+            return memoryview(bytes.fromhex(spec["$mv"]))
         if "$tb" in spec:
             return _build_taskbuilder(spec["$tb"])
         if "$c" in spec:
@@ -351,8 +422,16 @@ def build(spec):
     return spec
 
 
-def json_domain_problems(spec, out=None):
-    """why a spec is outside the JSON domain (orjson): list of reasons, empty = in the domain"""
+NON_JSON_FORMS = {"$b": "bytes", "$set": "set", "$fs": "frozenset", "$t": "tuple", "$cx": "complex", "$dt": "datetime", "$date": "date",
+                  "$uuid": "UUID", "$dec": "Decimal", "$path": "PurePosixPath", "$ba": "bytearray", "$mv": "memoryview"}
+
+
+def json_domain_problems(spec, out=None, any_leaf=False):
+    """why a spec is outside the JSON domain: list of reasons, empty = in the domain. The domain of the JSON encodings is what
+    JSON can carry: null, booleans, integers of 64 bit, finite floats, well-formed unicode strings, lists, str-keyed mappings.
+    Everything else a field of type `Any` may hold (bytes, tuple, set, frozenset, complex, datetime, non-str keys, ...) is
+    OUTSIDE: the encoder may refuse it (that is what the property asks for) -- it may never hand back something else.
+    `any_leaf`: inside a value of type Any (where a tuple has no declared type that would restore it on decoding)."""
     out = [] if out is None else out
     if isinstance(spec, bool) or spec is None:
         return out
@@ -369,17 +448,47 @@ def json_domain_problems(spec, out=None):
             out.append("lone-surrogate")
     elif isinstance(spec, list):
         for x in spec:
-            json_domain_problems(x, out)
+            json_domain_problems(x, out, any_leaf)
     elif isinstance(spec, dict):
         if "$f" in spec:
             if not math.isfinite(float(spec["$f"])):
                 out.append("non-finite-float")
             return out
-        if "$b" in spec:
+        if "$d" in spec:
+            for k, v in spec["$d"]:
+                if any_leaf and not isinstance(k, str):
+                    out.append("non-str-key")
+                json_domain_problems(k, out, any_leaf)
+                json_domain_problems(v, out, any_leaf)
             return out
+        if "$c" in spec:
+            try:
+                types_ = dict(fields_of(registry()[spec["$c"]]))
+            except Exception:
+                types_ = {}
+            for n, v in spec["f"].items():
+                json_domain_problems(v, out, any_leaf or _has_any(types_.get(n)))
+            return out
+        if "$tb" in spec:
+            json_domain_problems(spec["$tb"].get("kw"), out, True)
+            return out
+        for form, name in NON_JSON_FORMS.items():
+            if form in spec:
+                # a bytes / tuple / set value of a field DECLARED with that type is restored by the decoder (pydantic): in the domain
+                if any_leaf or form not in ("$b", "$set", "$t", "$fs"):
+                    out.append(name)
+                if isinstance(spec[form], list):
+                    json_domain_problems(spec[form], out, any_leaf)
+                return out
         for v in spec.values():
-            json_domain_problems(v, out)
+            json_domain_problems(v, out, any_leaf)
     return out
+
+
+def _has_any(tp):
+    if tp is typing.Any:
+        return True
+    return any(_has_any(a) for a in typing.get_args(tp)) if tp is not None else False
 
 
 # --------------------------------------------------------------------------- JobInstance generator
@@ -465,8 +574,8 @@ def _walk(spec, fn):
         elif "$c" in spec:
             for v in spec["f"].values():
                 _walk(v, fn)
-        elif "$set" in spec or "$t" in spec:
-            for x in spec.get("$set", spec.get("$t")):
+        elif "$set" in spec or "$t" in spec or "$fs" in spec:
+            for x in spec.get("$set", spec.get("$t", spec.get("$fs"))):
                 _walk(x, fn)
         elif "$tb" in spec:
             for v in spec["$tb"].values():
@@ -545,70 +654,132 @@ def _show_val(x):
     return f"{x!r:.60} ({type(x).__name__})"
 
 
-def diff(a, b, path="$", ordered=False):
-    """First difference between two values, '' if none. FIELD BY FIELD over dataclasses and pydantic models (never via
-    repr / str / a class's own __eq__), strict about the types of scalars (True != 1, 1 != 1.0, tuple != list); mappings are
-    compared with their order where the order carries meaning (ORDERED_FIELDS)."""
+def vclass(x):
+    """class of a value as it appears in signatures: the python type, refined where the encodings distinguish
+    (non-finite floats, integers beyond 64 bit, strings with lone surrogates)"""
+    if isinstance(x, float):
+        if x != x:
+            return "float:nan"
+        if x in (math.inf, -math.inf):
+            return "float:inf" if x > 0 else "float:-inf"
+        return "float"
+    if isinstance(x, bool):
+        return "bool"
+    if isinstance(x, int):
+        return "int" if JSON_INT_MIN <= x <= JSON_INT_MAX else "int:beyond-64-bit"
+    if isinstance(x, str):
+        try:
+            x.encode("utf-8")
+            return "str"
+        except UnicodeEncodeError:
+            return "str:lone-surrogate"
+    return type(x).__name__
+
+
+class D(str):
+    """a difference: the text, plus what a signature needs -- `alter` (class of the original -> class of what came back, or the
+    kind of structural change) and `field` (the innermost named field of a dataclass / model on the path)"""
+    alter = ""
+    field = ""
+
+
+def _d(text, alter, field):
+    d = D(text)
+    d.alter = alter
+    d.field = field
+    return d
+
+
+def diffs(a, b, path="$", ordered=False, field="", out=None, limit=8):
+    """ALL differences between two values (up to `limit`), [] if none. FIELD BY FIELD over dataclasses and pydantic models
+    (never via repr / str / a class's own __eq__), strict about the types of scalars (True != 1, 1 != 1.0, tuple != list);
+    mappings are compared with their order where the order carries meaning (ORDERED_FIELDS). A differing subtree is reported
+    once (at its root); siblings are still compared, so that one known alteration does not hide another one in the same value."""
+    out = [] if out is None else out
+    if len(out) >= limit:
+        return out
     pa, pb = hasattr(type(a), "model_fields"), hasattr(type(b), "model_fields")
     if pa or pb:
         if not (pa and pb) or _base_name(type(a)) != _base_name(type(b)):
-            return f"{path}: {type(a).__name__} became {type(b).__name__}"
+            out.append(_d(f"{path}: {type(a).__name__} became {type(b).__name__}", f"{vclass(a)}->{vclass(b)}", field))
+            return out
         cn = _base_name(type(a))
         fa, fb = list(type(a).model_fields), list(type(b).model_fields)
         if fa != fb:
-            return f"{path}: fields {fa} became {fb}"
+            out.append(_d(f"{path}: fields {fa} became {fb}", "model-fields", field))
+            return out
         for f in fa:
-            d = diff(getattr(a, f), getattr(b, f), f"{path}.{f}", (cn, f) in ORDERED_FIELDS)
-            if d:
-                return d
-        return ""
+            diffs(getattr(a, f), getattr(b, f), f"{path}.{f}", (cn, f) in ORDERED_FIELDS, f, out, limit)
+        return out
     if dataclasses.is_dataclass(a) and not isinstance(a, type):
         if type(a) is not type(b):
-            return f"{path}: {_show_val(a)} became {_show_val(b)}"
+            out.append(_d(f"{path}: {_show_val(a)} became {_show_val(b)}", f"{vclass(a)}->{vclass(b)}", field))
+            return out
         for f in dataclasses.fields(a):
-            d = diff(getattr(a, f.name), getattr(b, f.name), f"{path}.{f.name}", False)
-            if d:
-                return d
-        return ""
+            diffs(getattr(a, f.name), getattr(b, f.name), f"{path}.{f.name}", False, f.name, out, limit)
+        return out
     if type(a) is not type(b):
-        return f"{path}: {_show_val(a)} became {_show_val(b)}"
+        out.append(_d(f"{path}: {_show_val(a)} became {_show_val(b)}", f"{vclass(a)}->{vclass(b)}", field))
+        return out
     if isinstance(a, dict):
         ka, kb = list(a), list(b)
-        if _keyset(ka) != _keyset(kb):
-            lost = [k for k in ka if k not in b]
-            new = [k for k in kb if k not in a]
-            return f"{path}: keys lost {lost!r:.80}, appeared {new!r:.80}"
+        if _keyset(ka) != _keyset(kb) or len(ka) != len(kb):
+            lost = [k for k in ka if not _has_key(b, k)]
+            new = [k for k in kb if not _has_key(a, k)]
+            alter = "key:" + (vclass(lost[0]) if lost else "none") + "->" + (vclass(new[0]) if new else "missing")
+            out.append(_d(f"{path}: keys lost {lost!r:.80}, appeared {new!r:.80}", alter, field))
+            return out
         if ordered and ka != kb:
-            return f"{path}: key order {ka!r:.100} became {kb!r:.100}"
+            out.append(_d(f"{path}: key order {ka!r:.100} became {kb!r:.100}", "key-order", field))
         for k in ka:
-            d = diff(a[k], b[k], f"{path}[{k!r:.40}]", ordered)
-            if d:
-                return d
-        return ""
+            diffs(a[k], b[k], f"{path}[{k!r:.40}]", ordered, field, out, limit)
+        return out
     if isinstance(a, (list, tuple)):
         if len(a) != len(b):
-            return f"{path}: length {len(a)} became {len(b)}"
+            out.append(_d(f"{path}: length {len(a)} became {len(b)}", f"{vclass(a)}-length", field))
+            return out
         for i, (x, y) in enumerate(zip(a, b)):
-            d = diff(x, y, f"{path}[{i}]", ordered)
-            if d:
-                return d
-        return ""
+            diffs(x, y, f"{path}[{i}]", ordered, field, out, limit)
+        return out
     if isinstance(a, (set, frozenset)):
         if len(a) != len(b):
-            return f"{path}: set of {len(a)} became set of {len(b)}"
+            out.append(_d(f"{path}: set of {len(a)} became set of {len(b)}", "set-size", field))
+            return out
         rest = list(b)
         for x in a:
             for i, y in enumerate(rest):
-                if not diff(x, y):
+                if not diffs(x, y, limit=1):
                     del rest[i]
                     break
             else:
-                return f"{path}: member {_show_fields(x)} lost; not matched: {[_show_fields(y) for y in rest]!r:.160}"
-        return ""
+                out.append(_d(f"{path}: member {_show_fields(x)} lost; not matched: {[_show_fields(y) for y in rest]!r:.160}", "set-member", field))
+                return out
+        return out
     if isinstance(a, float):
         ok = (a == b and math.copysign(1, a) == math.copysign(1, b)) or (a != a and b != b)
-        return "" if ok else f"{path}: {_show_val(a)} became {_show_val(b)}"
-    return "" if a == b else f"{path}: {_show_val(a)} became {_show_val(b)}"
+        if not ok:
+            out.append(_d(f"{path}: {_show_val(a)} became {_show_val(b)}", f"{vclass(a)}-value" if vclass(a) == vclass(b) else f"{vclass(a)}->{vclass(b)}", field))
+        return out
+    try:
+        eq = bool(a == b)
+    except Exception:
+        eq = False
+    if not eq:
+        out.append(_d(f"{path}: {_show_val(a)} became {_show_val(b)}", f"{vclass(a)}-value" if vclass(a) == vclass(b) else f"{vclass(a)}->{vclass(b)}", field))
+    return out
+
+
+def diff(a, b, path="$", ordered=False):
+    """First difference between two values, '' if none (see `diffs`)."""
+    ds = diffs(a, b, path, ordered, limit=1)
+    return ds[0] if ds else ""
+
+
+def _has_key(d, k):
+    try:
+        return k in d
+    except TypeError:
+        return False
 
 
 def _keyset(ks):
@@ -699,12 +870,17 @@ def gen_exec(rng):
     if rng.random() < 0.2:
         c = next(x for x in classes if x.__name__ == "DatasetTransmitPayload")      # the only multi-frame message
     spec = gen(c, rng, prof)
-    pipes = ["serde", "callback", "reliable"]
+    pipes = ["serde", "callback", "reliable", "zmq_reliable"]
     if c.__name__ == "DatasetTransmitPayload":
-        pipes += ["send_data"] * 6
+        pipes += ["send_data"] * 5 + ["zmq_send_data"] * 3
     if c.__name__ == "Syn":
         pipes = ["serde"]     # Syn is the envelope of the acknowledged channel, never its content (the listener refuses a bare Syn)
-    return {"family": "exec", "cls": c.__name__, "pipe": rng.choice(pipes), "spec": spec,
+    pipe = rng.choice(pipes)
+    if pipe == "zmq_send_data" and rng.random() < 0.5:
+        # what the data server really passes is a memoryview of the shm buffer (data_server.py: value=buf.view()); a str is no payload
+        h = gen_bytes(rng)[:4096].hex()
+        spec["f"]["value"] = rng.choice([{"$mv": h}, {"$mv": h}, {"$ba": h}, "text-not-bytes"])
+    return {"family": "exec", "cls": c.__name__, "pipe": pipe, "spec": spec,
             "syn_idx": gen_int(rng, prof), "addr": gen_str(rng, prof)}
 
 
@@ -726,6 +902,8 @@ def run_exec(case):
             return "decode-error", _err(e)
         x = same_msg(d, m)
         return ("ok", "") if not x else ("mismatch", x)
+    if pipe.startswith("zmq_"):
+        return _run_exec_zmq(case, m)
     cap = _CapSocket()
     old_get_socket, old_callback = comms.get_socket, comms.callback
     acks = []
@@ -771,6 +949,75 @@ def run_exec(case):
     return ("ok", "") if not x else ("mismatch", x)
 
 
+_zmq_n = [0]
+
+
+def _run_exec_zmq(case, m):
+    """the same senders and the same Listener._recv_one over REAL zmq sockets (inproc PUSH -> PULL): zmq's own frame handling
+    (what may be a frame, large frames) is part of the pipe. The Ack goes to a capturing socket."""
+    import zmq
+    import cascade.executor.comms as comms
+    import cascade.executor.msg as msg
+    from cascade.executor.serde import des_message
+    zctx = zmq.Context.instance()
+    _zmq_n[0] += 1
+    data_addr = f"inproc://c17-{_zmq_n[0]}"
+    pull = zctx.socket(zmq.PULL)
+    push = zctx.socket(zmq.PUSH)
+    cap = _CapSocket()
+    old_get_socket = comms.get_socket
+    try:
+        pull.bind(data_addr)
+        push.connect(data_addr)
+        comms.get_socket = lambda address: push if address == data_addr else cap
+        try:
+            if case["pipe"] == "zmq_reliable":
+                s = comms.ReliableSender(case["addr"], 1000)
+                s.idx = case["syn_idx"]
+                s.add_host("h", data_addr)
+                s.send("h", m)
+            else:
+                comms.send_data(data_addr, m, msg.Syn(idx=case["syn_idx"], addr=case["addr"]))
+        except Exception as e:
+            return "rejected", _err(e)
+        lst = object.__new__(comms.Listener)
+        lst.address = data_addr
+        lst.socket = pull
+        lst.poller = zmq.Poller()
+        lst.poller.register(pull, flags=zmq.POLLIN)
+        lst.acked = set()
+        try:
+            d = lst._recv_one(3000)
+        except Exception as e:
+            return "decode-error", _err(e)
+        acks = [des_message(f[0]) for f in cap.sent]
+    finally:
+        comms.get_socket = old_get_socket
+        push.close(0)
+        pull.close(0)
+    want = msg.Ack(idx=case["syn_idx"])
+    if len(acks) != 1 or diff(want, acks[0]):
+        return "mismatch", f"ack {acks!r:.120} != {want!r}"
+    if d is None:
+        return "mismatch", "listener dropped the message"
+    if case["pipe"] == "zmq_send_data":
+        if type(d) is not type(m):
+            return "mismatch", _d(f"$: {type(m).__name__} became {type(d).__name__}", "message-class", "")
+        x = same_msg(d.header, m.header)
+        if x:
+            return "mismatch", x
+        # the receiving side always has bytes; a memoryview / bytearray payload (what the data server sends) must arrive with
+        # the same content, a bytes payload as the very bytes
+        if isinstance(m.value, (bytes, bytearray, memoryview)):
+            if type(d.value) is bytes and d.value == bytes(m.value):
+                return "ok", ""
+            return "mismatch", _d(f"$.value: payload of {len(bytes(m.value))} bytes arrived as {_show_val(d.value)}", f"{vclass(m.value)}-content", "value")
+        x = diff(m.value, d.value, "$.value")
+        return ("ok", "") if not x else ("mismatch", x)
+    x = same_msg(d, m)
+    return ("ok", "") if not x else ("mismatch", x)
+
+
 # --------------------------------------------------------------------------- family: controller reports
 
 def gen_report(rng):
@@ -779,12 +1026,90 @@ def gen_report(rng):
     spec = gen(ControllerReport, rng, prof)
     if rng.random() < 0.4:
         spec["f"]["current_status"] = rng.choice(["0.00", "99.99", "100.00", "Shutdown", None])
+    if rng.random() < 0.35:
+        # through the real Reporter: the job id travels inside the report address "<address>,<job_id>" built by the gateway
+        addr = rng.choice(["tcp://127.0.0.1:5555", "tcp://gw.example.int:12345", "ipc:///tmp/gw.socket", "inproc://x", gen_str(rng, prof, True).replace(",", ".")])
+        mode = rng.choice(["progress", "result", "shutdown"])
+        return {"family": "report", "cls": "ControllerReport", "pipe": "reporter", "spec": spec, "addr": addr, "mode": mode,
+                "remaining": rng.choice([0, 1, 2, 3, 7]), "total": rng.choice([7, 8, 9, 1000])}
     return {"family": "report", "cls": "ControllerReport", "pipe": "pickle", "spec": spec}
+
+
+def _run_reporter(case, m):
+    """gateway.router._spawn_local builds the report address "<addr>,<job_id>" (argv of the controller process), the controller's
+    Reporter splits it, sends progress / result / shutdown reports through report._send, gateway side deserialize()s them: the
+    job id, the address connected to and the payload must be the ones that went in."""
+    import cascade.controller.report as report
+    import cascade.gateway.api as gapi
+    import cascade.gateway.router as router
+    argv = []
+
+    class FakeSub:
+        @staticmethod
+        def Popen(a, **k):
+            argv.extend(a)
+            return None
+    old_port, old_sub = router.local_job_port, router.subprocess
+    try:
+        router.subprocess = FakeSub
+        spec = gapi.JobSpec(benchmark_name="b", envvars={}, job_instance=None, workers_per_host=1, hosts=1, use_slurm=False)
+        try:
+            router._spawn_local(spec, case["addr"], m.job_id)
+        except Exception as e:
+            return "rejected", _err(e)
+    finally:
+        router.local_job_port, router.subprocess = old_port, old_sub
+    if "--report_address" not in argv:
+        return "mismatch", "no --report_address in the argv of the spawned controller"
+    value = argv[argv.index("--report_address") + 1]
+    cap = _CapSocket()
+    connected = []
+    cap.connect = lambda a: connected.append(a)
+
+    class FakeCtx:
+        def socket(self, kind):
+            return cap
+    old_ctx = report.get_context
+    try:
+        report.get_context = lambda: FakeCtx()
+        try:
+            rep = report.Reporter(value)
+            if case["mode"] == "result":
+                ds, payload = m.results[0] if m.results else (build({"$c": "core.DatasetId", "f": {"task": "t", "output": "o"}}), b"\x00payload")
+                rep.send_result(ds, payload)
+                want = (None, [(ds, payload)])
+            elif case["mode"] == "shutdown":
+                rep.shutdown()
+                want = ("Shutdown", [])
+            else:
+                st = types.SimpleNamespace(remaining=case["remaining"], total=case["total"])
+                rep.send_progress(st)
+                want = ("{:.2f}".format(100 * (1.0 - case["remaining"] / case["total"])), [])
+        except Exception as e:
+            return "rejected", _err(e)
+    finally:
+        report.get_context = old_ctx
+    if len(cap.sent) != 1:
+        return "mismatch", f"{len(cap.sent)} frames sent"
+    try:
+        d = report.deserialize(cap.sent[0][0])
+    except Exception as e:
+        return "decode-error", _err(e)
+    if connected != [case["addr"]]:
+        return "mismatch", _d(f"$.address: reporter connected to {connected!r}, the gateway listens on {case['addr']!r}", "report-address", "address")
+    x = diff(m.job_id, d.job_id, "$.job_id") or diff(want[0], d.current_status, "$.current_status") or diff(want[1], d.results, "$.results")
+    if x:
+        return "mismatch", x
+    if type(d.timestamp) is not int:
+        return "mismatch", f"$.timestamp: {_show_val(d.timestamp)}"
+    return "ok", ""
 
 
 def run_report(case):
     from cascade.controller.report import deserialize, serialize
     m = build(case["spec"])
+    if case["pipe"] == "reporter":
+        return _run_reporter(case, m)
     try:
         b = serialize(m)
     except Exception as e:
@@ -813,6 +1138,7 @@ def gateway_pairs():
 def gen_gateway(rng):
     import base64
     prof = Profile("json", bad=rng.random() < 0.3)
+    prof.exotic = rng.choice([0.0, 0.0, 0.0, 0.15, 0.35])
     pairs = gateway_pairs()
     req_c, rsp_c = rng.choice(pairs)
     if rng.random() < 0.3:      # the request that carries a whole job instance gets extra weight
@@ -871,11 +1197,14 @@ def run_gateway(case):
     rsp = build(case["rsp"])
     # response encoder first (so that the reply we feed to the client is what the server would send)
     rsp_rejected = None
+    LAST_GW_BYTES["req"] = LAST_GW_BYTES["rsp"] = None
     try:
         rb = client.serialize_response(rsp)
+        LAST_GW_BYTES["rsp"] = rb
     except Exception as e:
         rsp_rejected = _err(e)
-        rb = client.serialize_response(type(rsp)(**{k: None if k != "progresses" else {} for k in type(rsp).model_fields}))
+        # the reply fed to the client instead: the same class with empty fields (built without validation: a field may not admit None)
+        rb = client.serialize_response(type(rsp).model_construct(**{k: None if k != "progresses" else {} for k in type(rsp).model_fields}))
     fake = _FakeZmq(rb)
     old = client.zmq
     try:
@@ -890,20 +1219,21 @@ def run_gateway(case):
     if not fake.sent:
         # refused while serialising the request
         return "rejected", rr_err, "request"
+    LAST_GW_BYTES["req"] = fake.sent[0]
     try:
         preq = client.parse_request(fake.sent[0])
     except Exception as e:
         return "decode-error", _err(e), "request"
-    x = f"$: {type(req).__name__} became {type(preq).__name__}" if type(preq) is not type(req) else diff(req, preq)
-    if x:
-        return "mismatch", f"request parsed with {x}", "request"
+    xs = [_d(f"$: {type(req).__name__} became {type(preq).__name__}", "message-class", "")] if type(preq) is not type(req) else diffs(req, preq)
+    if xs:
+        return "mismatch", f"request parsed with {xs[0]}", "request", xs
     if rsp_rejected is not None:
         return "rejected", rsp_rejected, "response"
     if rr_err is not None:
         return "decode-error", rr_err, "response"
-    x = f"$: {type(rsp).__name__} became {type(got).__name__}" if type(got) is not type(rsp) else diff(rsp, got)
-    if x:
-        return "mismatch", f"response parsed with {x}", "response"
+    xs = [_d(f"$: {type(rsp).__name__} became {type(got).__name__}", "message-class", "")] if type(got) is not type(rsp) else diffs(rsp, got)
+    if xs:
+        return "mismatch", f"response parsed with {xs[0]}", "response", xs
     return "ok", "", ""
 
 
@@ -911,29 +1241,178 @@ def run_gateway(case):
 
 def gen_jobfile(rng):
     prof = Profile("json", bad=rng.random() < 0.3)
+    prof.exotic = rng.choice([0.0, 0.0, 0.0, 0.15, 0.35])
     return {"family": "job", "cls": "JobInstance", "pipe": rng.choice(["router-file", "dumps-loads"]), "spec": gen_job(rng, prof)}
 
 
 LAST_JOB_BYTES = [None]     # what the real writer wrote for the last job case (for the Model/Json comparison)
+LAST_GW_BYTES = {"req": None, "rsp": None}      # what request_response sent / serialize_response returned for the last gateway case
+
+
+# ----- the model's input, read off the ATTRIBUTES of the real objects (never from their dump), order kept
+
+class NotModelled(Exception):
+    """the value has no counterpart in Model/Json.lean (a string that is not well-formed unicode)"""
+
+
+def flt_parts(x):
+    """finite float -> [neg, "<digits>", exp]: sign, shortest decimal digits that identify the double (Python's repr, an
+    implementation independent of orjson's), exponent; digits without trailing zeros"""
+    from decimal import Decimal
+    neg = math.copysign(1, x) < 0
+    t = Decimal(repr(abs(x))).as_tuple()
+    digits = int("".join(map(str, t.digits)))
+    exp = t.exponent
+    if digits == 0:
+        return [neg, "0", 0]
+    while digits % 10 == 0:
+        digits //= 10
+        exp += 1
+    return [neg, str(digits), exp]
+
+
+def _mstr(x):
+    try:
+        x.encode("utf-8")
+    except UnicodeEncodeError:
+        raise NotModelled("lone surrogate")
+    return x
+
+
+def py_to_model(x):
+    """a Python value as Model/Json.lean's `PyVal` (Drive/C17.lean: pyOfJson)"""
+    import datetime
+    import uuid
+    if x is None or type(x) is bool:
+        return x
+    if type(x) is int:
+        return {"i": str(x)}
+    if type(x) is float:
+        if x != x:
+            return {"nf": "nan"}
+        if x in (math.inf, -math.inf):
+            return {"nf": "inf" if x > 0 else "ninf"}
+        return {"f": flt_parts(x)}
+    if type(x) is str:
+        return {"s": _mstr(x)}
+    if type(x) is bytes:
+        return {"b": list(x[:8])}
+    if type(x) is list:
+        return {"l": [py_to_model(e) for e in x]}
+    if type(x) is tuple:
+        return {"t": [py_to_model(e) for e in x]}
+    if type(x) is set:
+        return {"set": [py_to_model(e) for e in x]}
+    if type(x) is frozenset:
+        return {"fs": [py_to_model(e) for e in x]}
+    if type(x) is dict:
+        return {"d": [[py_to_model(k), py_to_model(v)] for k, v in x.items()]}
+    if type(x) in (datetime.datetime, datetime.date, datetime.time):
+        return {"n": [type(x).__name__, x.isoformat()]}
+    if type(x) is uuid.UUID:
+        return {"n": ["UUID", str(x)]}
+    return {"x": type(x).__name__}
+
+
+def doc_to_model(text):
+    """the bytes the real code wrote, parsed by Python's stdlib `json` (independent of orjson) into the model's token-level
+    documents (Drive/C17.lean: docOfJson): key order and duplicates kept, integer and float tokens told apart"""
+    import json
+
+    class F(str):
+        pass
+
+    class I(str):
+        pass
+
+    def conv(x):
+        if x is None or isinstance(x, bool):
+            return x
+        if isinstance(x, I):
+            return {"i": str(int(x))}
+        if isinstance(x, F):
+            from decimal import Decimal
+            d = Decimal(str(x))
+            t = d.as_tuple()
+            digits = int("".join(map(str, t.digits)))
+            exp = t.exponent
+            if digits == 0:
+                return {"f": [bool(t.sign), "0", 0]}
+            while digits % 10 == 0:
+                digits //= 10
+                exp += 1
+            return {"f": [bool(t.sign), str(digits), exp]}
+        if isinstance(x, str):
+            return {"s": x}
+        if isinstance(x, list):
+            return {"a": [conv(e) for e in x]}
+        if isinstance(x, P):
+            return {"o": [[k, conv(v)] for k, v in x.pairs]}
+        raise NotModelled(type(x).__name__)
+
+    class P:
+        def __init__(self, pairs):
+            self.pairs = pairs
+
+    def bad_const(c):
+        raise NotModelled("constant " + c)
+    return conv(json.loads(text, object_pairs_hook=P, parse_float=F, parse_int=I, parse_constant=bad_const))
 
 
 def job_model_input(job):
-    """The job instance as the Lean model takes it (Drive/C17.lean, op "job"): read off the ATTRIBUTES of the
-    real objects (not their dump), pairs sorted by key."""
+    """The job instance as the Lean model takes it (Drive/C17.lean, jobOfJson): attributes of the real objects, in the
+    order the real dicts have."""
     def pairs(d):
-        return [[k, d[k]] for k in sorted(d)]
+        return [[_mstr(k), _mstr(v)] for k, v in d.items()]
     tasks = []
-    for name in sorted(job.tasks):
-        t = job.tasks[name]
+    for name, t in job.tasks.items():
         d = t.definition
-        tasks.append([name, {"def": {"entrypoint": d.entrypoint, "func": d.func, "environment": list(d.environment),
-                                     "input_schema": pairs(d.input_schema), "output_schema": pairs(d.output_schema),
-                                     "needs_gpu": d.needs_gpu},
-                             "kw": t.static_input_kw, "ps": t.static_input_ps}])
-    edges = [{"source": [e.source.task, e.source.output], "sink_task": e.sink_task, "kw": e.sink_input_kw, "ps": e.sink_input_ps}
-             for e in job.edges]
-    return {"tasks": tasks, "edges": edges, "serdes": [[k, job.serdes[k][0], job.serdes[k][1]] for k in sorted(job.serdes)],
-            "ext": [[d.task, d.output] for d in job.ext_outputs]}
+        tasks.append([_mstr(name), {"def": {"entrypoint": _mstr(d.entrypoint), "func": None if d.func is None else _mstr(d.func),
+                                            "environment": [_mstr(e) for e in d.environment],
+                                            "input_schema": pairs(d.input_schema), "output_schema": pairs(d.output_schema),
+                                            "needs_gpu": d.needs_gpu},
+                                    "kw": [[_mstr(k), py_to_model(v)] for k, v in t.static_input_kw.items()],
+                                    "ps": [[_mstr(k), py_to_model(v)] for k, v in t.static_input_ps.items()]}])
+    edges = [{"source": [_mstr(e.source.task), _mstr(e.source.output)], "sink_task": _mstr(e.sink_task),
+              "kw": None if e.sink_input_kw is None else _mstr(e.sink_input_kw),
+              "ps": None if e.sink_input_ps is None else str(e.sink_input_ps)} for e in job.edges]
+    return {"tasks": tasks, "edges": edges, "serdes": [[_mstr(k), _mstr(v[0]), _mstr(v[1])] for k, v in job.serdes.items()],
+            "ext": [[_mstr(d.task), _mstr(d.output)] for d in job.ext_outputs]}
+
+
+def gw_model_input(m):
+    """a gateway request / response as the Lean model takes it (reqOfJson / rspOfJson)"""
+    n = type(m).__name__
+    os_ = lambda x: None if x is None else _mstr(x)
+    if n == "SubmitJobRequest":
+        j = m.job
+        return {"cls": n, "job": {"benchmark_name": os_(j.benchmark_name), "envvars": [[_mstr(k), _mstr(v)] for k, v in j.envvars.items()],
+                                  "job_instance": None if j.job_instance is None else job_model_input(j.job_instance),
+                                  "workers_per_host": str(j.workers_per_host), "hosts": str(j.hosts), "use_slurm": j.use_slurm}}
+    if n == "JobProgressRequest":
+        return {"cls": n, "job_ids": [_mstr(x) for x in m.job_ids]}
+    if n == "ResultRetrievalRequest":
+        return {"cls": n, "job_id": _mstr(m.job_id), "dataset_id": [_mstr(m.dataset_id.task), _mstr(m.dataset_id.output)]}
+    if n == "ShutdownRequest":
+        return {"cls": n}
+    if n == "SubmitJobResponse":
+        return {"cls": n, "job_id": os_(m.job_id), "error": os_(m.error)}
+    if n == "JobProgressResponse":
+        return {"cls": n, "progresses": [[_mstr(k), _mstr(v)] for k, v in m.progresses.items()], "error": os_(m.error)}
+    if n == "ResultRetrievalResponse":
+        return {"cls": n, "result": os_(m.result), "error": os_(m.error)}
+    if n == "ShutdownResponse":
+        return {"cls": n, "error": os_(m.error)}
+    raise NotModelled(n)      # a message class the model does not know (added to gateway/api.py): the tie says so
+
+
+def enc_err_kind(detail):
+    """which of orjson's refusals a `rejected` detail is (by its message; every one of them is a TypeError)"""
+    for frag, kind in (("Type is not", "type"), ("Dict key mu", "key"), ("Integer exc", "int-range"), ("str is not", "utf8"),
+                       ("Recursion", "recursion")):
+        if frag in (detail or ""):
+            return kind
+    return "other"
 
 
 def json_same(a, b):
@@ -972,8 +1451,7 @@ def run_jobfile(case):
             back = JobInstance(**orjson.loads(b))
         except Exception as e:
             return "decode-error", _err(e)
-        x = diff(job, back) or _first_diff(job.model_dump(), back.model_dump())
-        return ("ok", "") if not x else ("mismatch", x)
+        return _job_verdict(job, back)
     # through the real writer (gateway.router._spawn_local) and the real reader (benchmarks get_job)
     import cascade.benchmarks.__main__ as bm
     import cascade.gateway.api as gapi
@@ -1024,8 +1502,15 @@ def run_jobfile(case):
         for mod in (router, bm):
             if "open" in vars(mod):
                 del mod.open
-    x = diff(job, back) or _first_diff(job.model_dump(), back.model_dump())
-    return ("ok", "") if not x else ("mismatch", x)
+    return _job_verdict(job, back)
+
+
+def _job_verdict(job, back):
+    xs = diffs(job, back)
+    if not xs:
+        x = _first_diff(job.model_dump(), back.model_dump())
+        xs = [_d(x, "model-dump-differs", "")] if x else []
+    return ("ok", "") if not xs else ("mismatch", xs[0], "", xs)
 
 
 def _first_diff(a, b, path="$", eq=None):
@@ -1059,6 +1544,12 @@ SWEEP_INTS = {"pickle": [0, 1, -1, 255, 2**31, 2**32, 2**53 + 1, 2**63 - 1, 2**6
 SWEEP_ANY = [None, True, False, 0, 1, -1, 2**53 + 1, 2**64 - 1, {"$f": "-0.0"}, {"$f": "1.0"}, 0.1, 1e22, 1.7976931348623157e308, 5e-324, "", "a.b", "1",
              [], {"$d": []}, [[]], [None], {"$d": [["b", 1], ["a", 2]]}, [{"$d": [["10", 1], ["9", 2], ["2", 3]]}],
              {"$d": [["z", {"$d": [["b", [1, "1", 1.5]], ["a", None]]}], ["", 0]]}]
+SWEEP_ANY_NON_JSON = [{"$b": ""}, {"$b": "6162"}, {"$b": "fffe"}, {"$t": []}, {"$t": [1, 2]}, {"$t": [[1], {"$t": ["a"]}]}, [{"$t": [1]}],
+                      {"$d": [["k", {"$t": [1, 2]}]]}, {"$set": []}, {"$set": [3, 4]}, {"$fs": [1]}, {"$d": [[1, "a"]]}, {"$d": [[0, "a"], ["0", "b"]]},
+                      {"$d": [[True, 1]]}, {"$d": [[None, 1]]}, {"$d": [[1.5, 2]]}, {"$d": [[{"$t": [1, 2]}, 3]]}, {"$d": [[{"$b": "6b"}, 1]]},
+                      {"$f": "inf"}, {"$f": "-inf"}, {"$f": "nan"}, [{"$f": "inf"}], {"$d": [["k", {"$f": "nan"}]]}, {"$cx": ["1.0", "2.0"]},
+                      {"$dt": "2020-01-02T03:04:05"}, {"$dt": "2024-02-29T00:00:00+00:00"}, {"$date": "2020-01-02"},
+                      {"$uuid": "12345678123456781234567812345678"}, {"$dec": "1.10"}, {"$path": "/tmp/x"}, 2**64, -2**63 - 1, "a\ud800"]
 SWEEP_BYTES = ["", "00", "80", "ff" * 255, "00" * 65537]
 
 
@@ -1070,7 +1561,7 @@ def sweep_values(tp, kind, name="v", idx=0):
     """-> (base spec, [variant specs]): the base carries distinct, harmless values (so that swapped / dropped fields show);
     every variant differs from the base in ONE leaf (or one container shape)."""
     if tp is typing.Any:
-        return 7 + idx, list(SWEEP_ANY)
+        return 7 + idx, list(SWEEP_ANY) + (list(SWEEP_ANY_NON_JSON) if kind == "json" else [])
     if tp is type(None):
         return None, []
     if tp is bool:
@@ -1095,10 +1586,10 @@ def sweep_values(tp, kind, name="v", idx=0):
         return base, vs
     org = typing.get_origin(tp)
     args = typing.get_args(tp)
-    if org in (list, set):
+    if org in (list, set, frozenset):
         b, vs = sweep_values(args[0], kind, name, idx)
         b2 = sweep_values(args[0], kind, name, idx + 1)[0]
-        wrap = (lambda xs: xs) if org is list else (lambda xs: {"$set": xs})
+        wrap = (lambda xs: xs) if org is list else (lambda xs: {"$set": xs}) if org is set else (lambda xs: {"$fs": xs})
         out = [wrap([])] + [wrap([v]) for v in vs] + [wrap([b2, b])]
         if org is list:
             out.append(wrap([b, b]))                 # a list keeps duplicates
@@ -1163,10 +1654,23 @@ def sweep_cases(light=False):
                 pipes.append("send_data")
             for p in pipes:
                 out.append({"family": "exec", "cls": name, "pipe": p, "spec": spec, "syn_idx": 2**32 + k, "addr": "tcp://h0.example:5555", "sweep": k})
+    # real zmq sockets: payload frames of every kind the senders are handed, a large frame, an acknowledged plain message
+    pbase = sweep_values(next(c for c in exec_message_classes() if c.__name__ == "DatasetTransmitPayload"), "pickle")[0]
+    for k, v in enumerate([{"$b": ""}, {"$b": "01fe"}, {"$b": "00" * 65537}, {"$b": "ab" * (2**20 + 1)}, {"$mv": "0102ff"}, {"$mv": ""}, {"$ba": "0102ff"}, "text-not-bytes"]):
+        out.append({"family": "exec", "cls": "DatasetTransmitPayload", "pipe": "zmq_send_data", "spec": {"$c": pbase["$c"], "f": dict(pbase["f"], value=v)},
+                    "syn_idx": 2**40 + k, "addr": "tcp://h0.example:5555", "sweep": 100000 + k})
+    tbase = sweep_values(next(c for c in exec_message_classes() if c.__name__ == "TaskSequence"), "pickle")[0]
+    out.append({"family": "exec", "cls": "TaskSequence", "pipe": "zmq_reliable", "spec": tbase, "syn_idx": 7, "addr": "tcp://h0.example:5555", "sweep": 100100})
     from cascade.controller.report import ControllerReport
     base, vs = sweep_values(ControllerReport, "pickle")
     for k, spec in enumerate([base] + thin(vs)):
         out.append({"family": "report", "cls": "ControllerReport", "pipe": "pickle", "spec": spec, "sweep": k})
+    # through the real Reporter: job ids with the separator of the report address in them, addresses of every transport
+    for k, (jid, addr, mode) in enumerate([("job-1", "tcp://127.0.0.1:5555", "progress"), ("a,b", "tcp://127.0.0.1:5555", "result"), (",", "ipc:///tmp/gw.socket", "shutdown"),
+                                           ("", "tcp://gw.example.int:12345", "progress"), ("j,", "inproc://x", "result"), ("1,2,3", "tcp://[::1]:5555", "progress"),
+                                           ("é,名", "tcp://10.0.0.1:5555", "shutdown"), ("job 1", "ipc:///tmp/a b/gw.socket", "result")]):
+        out.append({"family": "report", "cls": "ControllerReport", "pipe": "reporter", "spec": {"$c": base["$c"], "f": dict(base["f"], job_id=jid)},
+                    "addr": addr, "mode": mode, "remaining": k % 3, "total": 3 + k, "sweep": 100000 + k})
     for req_c, rsp_c in gateway_pairs():
         qb, qv = sweep_values(req_c, "json")
         rb, rv = sweep_values(rsp_c, "json")
@@ -1196,6 +1700,14 @@ def sweep_cases(light=False):
     return out
 
 
+def large_payload_cases():
+    """thorough tier: payload frames of 2^24+1 bytes through the capturing socket and through real zmq sockets"""
+    pbase = sweep_values(next(c for c in exec_message_classes() if c.__name__ == "DatasetTransmitPayload"), "pickle")[0]
+    spec = {"$c": pbase["$c"], "f": dict(pbase["f"], value={"$brep": ["5a", 2**24 + 1]})}
+    return [{"family": "exec", "cls": "DatasetTransmitPayload", "pipe": p, "spec": spec, "syn_idx": 2**41 + k, "addr": "tcp://h0.example:5555", "sweep": 200000 + k}
+            for k, p in enumerate(["send_data", "zmq_send_data", "serde"])]
+
+
 def json_copy(x):
     import json
     return json.loads(json.dumps(x))
@@ -1222,12 +1734,11 @@ def _smaller(spec):
                 for y in _smaller(k):
                     if all(y != k2 for k2, _ in ps):
                         yield {"$d": ps[:i] + [[y, v]] + ps[i + 1:]}
-        elif "$set" in spec or "$t" in spec:
-            tag = "$set" if "$set" in spec else "$t"
+        elif "$set" in spec or "$t" in spec or "$fs" in spec:
+            tag = "$set" if "$set" in spec else "$t" if "$t" in spec else "$fs"
             xs = spec[tag]
-            if tag == "$set":
-                for i in range(len(xs)):
-                    yield {tag: xs[:i] + xs[i + 1:]}
+            for i in range(len(xs)):       # (a tuple of a declared arity that gets too short is no value any more: evaluate says so)
+                yield {tag: xs[:i] + xs[i + 1:]}
             for i, x in enumerate(xs):
                 for y in _smaller(x):
                     yield {tag: xs[:i] + [y] + xs[i + 1:]}
@@ -1256,12 +1767,15 @@ def _smaller(spec):
             yield 1
 
 
-def shrink(case, budget=400):
-    """Greedy reduction of a failing sampled case: a smaller case is taken if the oracle fails on it with the same signature."""
+def shrink(case, budget=400, sig=None):
+    """Greedy reduction of a failing sampled case: a smaller case is taken if the oracle fails on it with the same signature
+    (`sig`: which of the case's violations to keep; default the first)."""
     r0 = evaluate(case)
     if r0["violation"] is None:
         return case
-    sig = r0["violation"][0]
+    sig = sig or r0["violation"][0]
+    if not any(v[0] == sig for v in r0["violations"]):
+        return case
     cur = case
     used = 0
     progress = True
@@ -1280,7 +1794,7 @@ def shrink(case, budget=400):
                     r = evaluate(c2)
                 except Exception:
                     continue
-                if r["violation"] is not None and r["violation"][0] == sig:
+                if any(v[0] == sig for v in r["violations"]):
                     cur = c2
                     progress = True
                     break
@@ -1302,7 +1816,14 @@ FAMILIES = {
 def domain_problems(case):
     """reasons why the encoder is allowed to refuse this case (empty: it must be accepted)"""
     if case["family"] in ("exec", "report"):
-        return []                       # pickle: every value of the message types is admitted
+        # pickle: every value of the message types is admitted; a payload FRAME must be bytes-like (annotation: bytes)
+        if case["pipe"] in ("send_data", "zmq_send_data"):
+            v = case["spec"].get("f", {}).get("value")
+            if not (isinstance(v, dict) and ("$b" in v or "$mv" in v or "$ba" in v or "$brep" in v)):
+                return ["payload-not-bytes"]
+        if case["pipe"] == "reporter" and "," in case.get("addr", ""):
+            return ["comma-in-report-address"]
+        return []
     probs = json_domain_problems(case["spec"])
     if case["family"] == "gateway":
         probs = probs + json_domain_problems(case.get("rsp"))
@@ -1340,32 +1861,77 @@ def fixed_probes():
     ]
 
 
+# What orjson (default options) does to three classes of values inside a field of type Any instead of refusing them. A signature
+# gets the mechanism only if the OBSERVED alteration is exactly this one (class of the original -> class of what came back) and it
+# sits in a field of type Any: anything else on the same input (inf coming back as 0, a tuple coming back as a str, a tuple of a
+# field declared `tuple[...]` coming back as a list) has no mechanism and is matched by no known finding.
+MECHANISMS = {
+    "tuple->list": "json-array-for-tuple",
+    "float:inf->NoneType": "json-null-for-non-finite-float", "float:-inf->NoneType": "json-null-for-non-finite-float",
+    "float:nan->NoneType": "json-null-for-non-finite-float",
+    "datetime->str": "json-string-for-orjson-native-scalar", "date->str": "json-string-for-orjson-native-scalar",
+    "time->str": "json-string-for-orjson-native-scalar", "UUID->str": "json-string-for-orjson-native-scalar",
+}
+_any_fields = None
+
+
+def any_fields():
+    """names of the fields of the real classes whose annotation contains `Any`"""
+    global _any_fields
+    if _any_fields is None:
+        out = set()
+        for c in registry().values():
+            try:
+                out |= {n for n, t in fields_of(c) if _has_any(t)}
+            except Exception:
+                pass
+        _any_fields = out
+    return _any_fields
+
+
 def evaluate(case):
-    """Runs the real code on one case. -> dict(status, detail, part, violation: None | (signature, what))"""
+    """Runs the real code on one case. -> dict(status, detail, part, violation: None | (signature, what), violations: [...]).
+    A mismatch gives one violation per differing place (distinct signatures), each naming the class of the original value and
+    of what came back (`alter`) and the field it sits in -- a known finding suppresses exactly that alteration in that family,
+    nothing else on the same input."""
     try:
         build(case["spec"])
         if "rsp" in case:
             build(case["rsp"])
     except Exception as e:
         # the real constructors (pydantic validation) do not accept the generated value: not a message at all
-        return {"status": "not-a-value", "detail": _err(e), "part": "", "domain_problems": [], "violation": None}
+        return {"status": "not-a-value", "detail": _err(e), "part": "", "domain_problems": [], "violation": None, "violations": []}
     try:
         res = FAMILIES[case["family"]][1](case)
     except Exception as e:    # the harness or the real code failed outside encode/decode: report, never crash
         res = ("crash", _err(e))
     status, detail = res[0], res[1]
     part = res[2] if len(res) > 2 else ""
+    all_diffs = res[3] if len(res) > 3 else []
     probs = domain_problems(case)
-    viol = None
+    viols = []
     if status == "ok":
         pass
     elif status == "rejected":
         if not probs:
-            viol = ({"kind": "in-domain-value-rejected", "family": case["family"], "cls": case["cls"], "pipe": case["pipe"]},
-                    f"{case['family']}/{case['cls']} via {case['pipe']}: encoder refused a value of the domain: {detail}")
+            viols.append(({"kind": "in-domain-value-rejected", "family": case["family"], "cls": case["cls"], "pipe": case["pipe"]},
+                          f"{case['family']}/{case['cls']} via {case['pipe']}: encoder refused a value of the domain: {detail}"))
     else:
-        sig = {"kind": status, "family": case["family"], "cls": case["cls"], "pipe": case["pipe"]}
-        if case.get("probe"):
-            sig["probe"] = case["probe"]
-        viol = (sig, f"{case['family']}/{case['cls']} via {case['pipe']} {part}: {status}: {detail}")
-    return {"status": status, "detail": detail, "part": part, "domain_problems": probs, "violation": viol}
+        base = {"kind": status, "family": case["family"], "cls": case["cls"], "pipe": case["pipe"]}
+        if part:
+            base["part"] = part
+        seen = set()
+        for d in (all_diffs or [detail]):
+            sig = dict(base)
+            if isinstance(d, D):
+                sig["alter"] = d.alter
+                sig["field"] = d.field
+                if d.alter in MECHANISMS and d.field in any_fields() and case["family"] in ("job", "gateway"):
+                    sig["mechanism"] = MECHANISMS[d.alter]
+            key = (sig.get("alter"), sig.get("field"))
+            if key in seen:
+                continue
+            seen.add(key)
+            viols.append((sig, f"{case['family']}/{case['cls']} via {case['pipe']} {part}: {status}: {d}"))
+    return {"status": status, "detail": detail, "part": part, "domain_problems": probs, "violation": viols[0] if viols else None,
+            "violations": viols}
